@@ -158,17 +158,19 @@ func genKeyPool(r *lib.RNG, height, n int) []*big.Int {
 	return pool
 }
 
+var boundaryVals = boundaryFelts()
+
 func genVal(r *lib.RNG) string {
-	switch r.Intn(8) {
+	switch r.Intn(10) {
 	case 0, 1:
 		return "0"
 	case 2:
 		return "1"
 	case 3:
 		return "2"
-	case 4:
-		// P-1 : the largest felt
-		return "800000000000011000000000000000000000000000000000000000000000000"
+	case 4, 5:
+		// 2^251-1, 2^251, 2^251+1, top nibble 8, P-2, P-1, ... : felts above 2^251 are legal values
+		return lib.Pick(r, boundaryVals)
 	default:
 		return randBits(r, 251).Text(16)
 	}
@@ -307,7 +309,9 @@ func evalTrieOutcome(res *lib.Result, o *trieOutcome, answers []string, off int,
 	if o.t2.Err != "" {
 		violateOnce(res, "trie2-error-on-valid-history", func() lib.Violation { return lib.Violation{Sig: "trie2-error-on-valid-history", What: "trie2 returned an error / panicked on a valid op sequence: " + o.t2.Err,
 			Replay: replayBody{Kind: "trie", Trie: shrinkTrie(c, func(c *TrieCase) bool { return runTrie2(c).Err != "" })}} })
-	} else if d := firstDiff(o.t2.Roots, o.spec); d >= 0 {
+	} else if d := firstDiff(o.t2.Roots, o.spec); d >= 0 && primitiveIsCause(c, o.t2.Roots) {
+		reportPrimitiveInside(res, c.Hash, replayBody{Kind: "trie", Trie: c}, at(o.t2.Roots, d), at(o.spec, d))
+	} else if d >= 0 {
 		violateOnce(res, "trie2-root-differs-from-commitment-of-map", func() lib.Violation { return lib.Violation{Sig: "trie2-root-differs-from-commitment-of-map",
 			What: fmt.Sprintf("trie2 root at observation %d is %s, the Starknet commitment of the key/value map is %s", d, at(o.t2.Roots, d), at(o.spec, d)),
 			Replay: replayBody{Kind: "trie", Trie: shrinkTrie(c, func(c *TrieCase) bool {
@@ -331,7 +335,9 @@ func evalTrieOutcome(res *lib.Result, o *trieOutcome, answers []string, off int,
 	if o.lg.Err != "" {
 		violateOnce(res, "legacy-trie-error-on-valid-history", func() lib.Violation { return lib.Violation{Sig: "legacy-trie-error-on-valid-history", What: "core/trie returned an error / panicked on a valid op sequence: " + o.lg.Err,
 			Replay: replayBody{Kind: "trie", Trie: shrinkTrie(c, func(c *TrieCase) bool { return runLegacy(c).Err != "" })}} })
-	} else if d := firstDiff(o.lg.Roots, o.spec); d >= 0 {
+	} else if d := firstDiff(o.lg.Roots, o.spec); d >= 0 && primitiveIsCause(c, o.lg.Roots) {
+		reportPrimitiveInside(res, c.Hash, replayBody{Kind: "trie", Trie: c}, at(o.lg.Roots, d), at(o.spec, d))
+	} else if d >= 0 {
 		violateOnce(res, "legacy-trie-root-differs-from-commitment-of-map", func() lib.Violation { return lib.Violation{Sig: "legacy-trie-root-differs-from-commitment-of-map",
 			What: fmt.Sprintf("core/trie root at observation %d is %s, the Starknet commitment of the key/value map is %s", d, at(o.lg.Roots, d), at(o.spec, d)),
 			Replay: replayBody{Kind: "trie", Trie: shrinkTrie(c, func(c *TrieCase) bool {
@@ -500,6 +506,12 @@ func main() {
 		lib.Finish(f, res)
 	}
 
+	// 0. juno's hash primitives against the independent implementations (boundary felts × boundary felts)
+	checkPrimitives(f, res, r)
+	if f.Out != "" {
+		_ = res.Write(f.Out)
+	}
+
 	// 1. exhaustive short histories on tiny heights
 	for _, hk := range []string{"ped", "pos"} {
 		checkTrieCases(f, res, drv, genExhaustive(r, 1, f.Scale(4, 5), hk), "exhaustive-h1")
@@ -592,6 +604,8 @@ func runReplay(f lib.Flags, res *lib.Result, drv *lib.Driver) {
 		}
 		legacyPurgeVariant = legacyPurges()
 		checkStateCases(f, res, drv, []*StateCase{&sc}, "replay")
+	case "primitive":
+		checkPrimitives(f, res, lib.NewRNG(f.Seed))
 	case "temptrie":
 		var n int
 		_ = json.Unmarshal(body.State, &n)
